@@ -20,7 +20,7 @@ if [ -n "${VERIF_REPO:-}" ] && [ "$VERIF_REPO" != /repo ]; then
   MODFLAG="-modfile=$VERIF_SCRATCH/alt.mod"
   export VERIF_REPO
 fi
-if ! go build $MODFLAG -tags verif -o "$VERIF_SCRATCH/bin/vp" ./cmd/vp 2>"$VERIF_SCRATCH/build.err"; then
+if ! go build $MODFLAG -tags "verif vp_${ID,,}" -o "$VERIF_SCRATCH/bin/vp" ./cmd/vp 2>"$VERIF_SCRATCH/build.err"; then
   echo "MACHINERY-FAILURE property=$ID driver does not build against /repo:"; cat "$VERIF_SCRATCH/build.err"
   exit 2
 fi
